@@ -44,7 +44,10 @@ CONSTANTS
                   \* "forall": states are chain states only, the invariant quantifies over every manifest
     ExportMode,   \* "none" | "all" | "focus" | "match" | "sample"   (J2 export of enumerated pairs, see ExportP)
     SampleMod, SampleRes,  \* the seeded sample: pairs with Mix(D,M) % SampleMod = SampleRes
-    NearMod                \* focus mode: the share 1/NearMod of the near misses (1 = all of them)
+    NearMod,               \* focus mode: the share 1/NearMod of the near misses (1 = all of them)
+    SliceMod, SliceRes     \* forall mode: only chain states with MixSide(D) % SliceMod = SliceRes are judged
+                           \* (1, 0 = all of them: exhaustive; the check picks SliceMod > 1 for the largest
+                           \*  configurations only when the machine is too slow for the time budget, and says so)
 
 VARIABLES D, M
 vars == <<D, M>>
@@ -179,7 +182,9 @@ AllProps(m, d) ==
         /\ (c = "ok" /\ NamesDistinct(m)) => om
         /\ te => ~rr
         /\ sg => (((c = "ok") = om) /\ (rr => ~te))
-        /\ GroupLevelP(m, d)
+        \* with one group per side GroupLevelP is the line above plus "totals differ => it is the resource
+        \* comparison that rejects"; stated directly it spares a second run of the greedy loop per pair
+        /\ IF MaxGroups = 1 THEN (sg /\ Len(m) = 1) => (rr = ~te) ELSE GroupLevelP(m, d)
 
 Soundness      == Sound(M, D)
 CrossSound     == CrossSoundP(M, D)
@@ -231,7 +236,14 @@ MixSide(S) == SumOf([i \in DOMAIN S |-> 101 * i +
                   SumOf([k \in DOMAIN S[i].recs |-> (7 * k + 3 * i + 1) * Code(S[i].recs[k])])])
 Mix(m, d) == 31 * MixSide(m) + 17 * MixSide(d) + 5 * Len(m) + Len(d)
 
-Near(m, d, k) == SameGroups(m, d) /\ Dist(m, d) + EpDist(m, d) <= k
+\* cheap necessary condition for Near (|sum of differences| <= sum of |differences|), evaluated first
+Total(S, f(_)) == SumOf([i \in DOMAIN S |-> SumOf([k \in DOMAIN S[i].recs |-> f(S[i].recs[k])])])
+CntOf(r) == r.c
+HttpOf(r) == r.http
+OtherOf(r) == r.other
+Coarse(m, d) == Abs(Total(m, CntOf) - Total(d, CntOf)) + Abs(Total(m, HttpOf) - Total(d, HttpOf))
+                + Abs(Total(m, OtherOf) - Total(d, OtherOf))
+Near(m, d, k) == Len(m) = Len(d) /\ Coarse(m, d) <= k /\ SameGroups(m, d) /\ Dist(m, d) + EpDist(m, d) <= k
 Sampled(m, d) == Mix(m, d) % SampleMod = SampleRes
 
 \* "focus": every match, the near misses (one replica or one endpoint off; all or a seeded share) and a seeded
@@ -255,8 +267,9 @@ MSpace     == UNION {[1..k -> MGroups] : k \in 0..MaxGroups}
 \* the number of pairs evaluated is (distinct states) x |MSpace|; printed once for the evidence
 ASSUME TenantMode = "forall" => PrintT(<<"MSPACE", Cardinality(MSpace)>>)
 
+InSlice == MixSide(D) % SliceMod = SliceRes
 ForAllManifests ==
-    TenantMode = "forall" =>
+    (TenantMode = "forall" /\ InSlice /\ (SliceMod = 1 \/ PrintT("EVAL"))) =>
         \A m \in MSpace : /\ (AllProps(m, D) \/ ~PrintT(<<"COUNTEREXAMPLE", ToJson([d |-> D, m |-> m])>>))
                            /\ ExportP(m, D)
 =============================================================================
